@@ -8,7 +8,7 @@
 Require Import OV.Base.Bytes OV.Base.Py OV.Base.Insp_Struct OV.Gen.Insp_Consts OV.Model.Insp_Engine.
 Require Import OV.Model.Insp_Vmdk OV.Model.Insp_All OV.Model.C02 OV.Model.C02_Cli OV.Gen.C02_Cli.
 Require Import OV.Proofs.C02_Engine OV.Proofs.C02_Static OV.Proofs.C02_Gpt OV.Proofs.C02_Qcow OV.Proofs.C02_Spec
-               OV.Proofs.C02_Checks OV.Proofs.C02_Vmdk OV.Proofs.C02_Cli OV.Proofs.C02_F1.
+               OV.Proofs.C02_Checks OV.Proofs.C02_Vmdk OV.Proofs.C02_VmdkRun OV.Proofs.C02_VmdkEx OV.Proofs.C02_Cli OV.Proofs.C02_F1.
 Open Scope N_scope.
 
 (* ---- 1. the gate: ANY inspector object of ANY format (hence every reachable state) ---- *)
@@ -142,6 +142,42 @@ Theorem C02_vmdk_pass_implies_state : forall s : ist vx,
         64 <= blen (r_data h) -> blen (r_data f) = 1536 -> footer_ok (r_data h) (r_data f))).
 Proof. exact vmdk_pass_implies_state. Qed.
 Print Assumptions C02_vmdk_pass_implies_state.
+
+(* VMDK on the BYTES, for all chunkings, in sparse mode outside the zone of finding F1 (signature KDMV, version 1..3):
+   a Pass (even of an inspector frozen by an exception) means: the descriptor is at sector 1, completely captured
+   (512 + min(desc_num*512, 2^20-1) bytes), ASCII up to its first NUL, of type monolithicSparse / streamOptimized
+   (case-insensitively: the text is lower-cased), every line recognised, at least one extent, no extent containing '/',
+   and with gdOffset = GD_AT_END the last 1536 bytes are a well-formed footer that agrees with the header in
+   signature, version, descriptor location and size and does not itself announce a footer *)
+Theorem C02_vmdk_sparse_pass_implies : forall cs : list bytes,
+  let b := concat cs in
+  64 <= blen b -> hdr_pre b ->
+  safety (fst (Insp_All.run F_vmdk cs)) = Pass ->
+  vmdk_desc_sec b * 512 = 512 /\
+  512 + dsize b <= blen b /\
+  is_ascii_text (bslice 512 (dsize b) b) = true /\
+  descriptor_ok (mkVx (Some (text_of (bslice 512 (dsize b) b))) (vmdk_type_of (text_of (bslice 512 (dsize b) b)))) /\
+  (vmdk_gd b = gd_at_end -> 1536 <= blen b /\ footer_ok b (bslice (blen b - 1536) 1536 b)).
+Proof. exact vmdk_sparse_pass_implies. Qed.
+Print Assumptions C02_vmdk_sparse_pass_implies.
+
+Theorem C02_vmdk_short_refused : forall cs : list bytes,
+  blen (concat cs) < 64 -> safety (fst (Insp_All.run F_vmdk cs)) = Refused.
+Proof. exact vmdk_short_refused. Qed.
+Print Assumptions C02_vmdk_short_refused.
+
+(* ... and conversely a well-formed sparse VMDK is accepted under every chunking (footer case: streams of at least
+   63+1536 bytes, the complement of zone F3) *)
+Theorem C02_clean_vmdk_accepted : forall cs : list bytes,
+  let b := concat cs in
+  64 <= blen b -> hdr_pre b -> vmdk_desc_sec b * 512 = 512 ->
+  512 + dsize b <= blen b ->
+  is_ascii_text (bslice 512 (dsize b) b) = true ->
+  descriptor_ok (mkVx (Some (text_of (bslice 512 (dsize b) b))) (vmdk_type_of (text_of (bslice 512 (dsize b) b)))) ->
+  (vmdk_gd b = gd_at_end -> 1599 <= blen b /\ footer_ok b (bslice (blen b - 1536) 1536 b)) ->
+  accepted (Insp_All.run F_vmdk cs) = true.
+Proof. exact clean_vmdk_accepted. Qed.
+Print Assumptions C02_clean_vmdk_accepted.
 
 (* ---- 3. clean images are accepted (every format but QED) ---- *)
 Theorem C02_clean_image_accepted : forall cs : list bytes,
